@@ -52,4 +52,19 @@ def h_cron_ParseTime : Nat := 0x179654190ee03bc8
 /-- hash of the normalised skeleton of parseCron (internal/dag/parser.go) -/
 def h_cron_parseCron : Nat := 0x581687a9e38c9bc0
 
+/-- hash of the normalised skeleton of * (internal/scheduler/scheduler.go) -/
+def h_rest_cron_scheduler_scheduler_go : Nat := 0x9d1992e1cdf904d6
+
+/-- hash of the normalised skeleton of * (internal/scheduler/job.go) -/
+def h_rest_cron_scheduler_job_go : Nat := 0x61f1c2e29873763b
+
+/-- hash of the normalised skeleton of * (internal/scheduler/entryreader.go) -/
+def h_rest_cron_scheduler_entryreader_go : Nat := 0x808acd2a7384ccd6
+
+/-- hash of the normalised skeleton of * (internal/persistence/local/flag_store.go) -/
+def h_rest_cron_persistence_local_flag_store_go : Nat := 0x9ca2f4d9ad22e50c
+
+/-- hash of the normalised skeleton of * (internal/persistence/local/storage/storage.go) -/
+def h_rest_cron_persistence_local_storage_storage_go : Nat := 0x878d3d799fdfb72e
+
 end BdModel.Canon.Cron
